@@ -518,4 +518,5 @@ def run(repo='/repo', tier='quick'):
     retain.run(db, res)
     from . import useb4test
     useb4test.run(db, res)
+    useb4test.run_strncpy(db, res)
     return res
